@@ -482,6 +482,16 @@ fn stack(out: &mut Vec<GSpec>) {
             quick_exprs.push(format!("{} ~ PEEK_ALL", wrap(k, h)));
         }
     }
+    // a tracked rule fails first, input is consumed, then a stack operation fails on an empty stack
+    for e in [
+        "hp? ~ \"a\" ~ POP",
+        "hd? ~ \"b\" ~ DROP",
+        "(hp | \"a\") ~ \"b\"? ~ PEEK",
+        "hq? ~ \"a\" ~ PEEK[0..1]",
+        "!hp ~ \"a\" ~ \"b\"? ~ POP ~ hp",
+    ] {
+        quick_exprs.push(e.to_string());
+    }
     // repetitions whose iterations make progress on the stack only (zero width)
     for e in [
         "DROP* ~ \"a\"",
@@ -702,6 +712,9 @@ fn tree(out: &mut Vec<GSpec>) {
         RuleSpec::new("deep", 'N', "sw ~ (la | m)? ~ e"),
         RuleSpec::new("opt", 'N', "a? ~ y? ~ a?"),
         RuleSpec::new("cnt", 'N', "a{2,3} ~ y{,2}"),
+        // same span, different content depending on what lies behind a sub-input's end
+        RuleSpec::new("lk", 'N', "a ~ (&a)?"),
+        RuleSpec::new("lks", 'S', "a ~ (!a ~ y?)?"),
     ];
     assert!(valid(&rules1));
     out.push(GSpec {
@@ -865,11 +878,24 @@ fn mention(out: &mut Vec<GSpec>) {
                 id: format!("mention_{}{}", if quick { "q" } else { "t" }, ci),
                 family: "mention".into(),
                 quick,
+                rules: rules.clone(),
+                alphabet: "ab".into(),
+                max_len: 6,
+                max_len_thorough: 8,
+                getters: true,
+                ..Default::default()
+            });
+            // the same shapes translated from the unoptimized AST
+            out.push(GSpec {
+                id: format!("mention_raw_{}{}", if quick { "q" } else { "t" }, ci),
+                family: "mention".into(),
+                quick: quick && ci == 0,
                 rules,
                 alphabet: "ab".into(),
                 max_len: 6,
                 max_len_thorough: 8,
                 getters: true,
+                options: vec!["emit_rule_reference".to_string(), "pest_optimizer = false".to_string()],
                 ..Default::default()
             });
         }
@@ -987,6 +1013,7 @@ fn sub(out: &mut Vec<GSpec>) {
         rules.push(RuleSpec::new(&format!("e{}", k), 'N', b));
         rules.push(RuleSpec::new(&format!("a{}", k), 'A', b));
         rules.push(RuleSpec::new(&format!("c{}", k), 'C', b));
+        rules.push(RuleSpec::new(&format!("s{}", k), 'S', b));
     }
     assert!(valid(&rules));
     out.push(GSpec {
